@@ -6,6 +6,8 @@ CONSTANTS
   ChainLen = 14
   Win = 1
   Spread = 3
+  Fracs = {0, 1, 2, 3}
+  FracSpread = 4
   TwoRegime = TRUE
 INVARIANTS WellFormed TimeRule EraOrder Crossing Emit
 CHECK_DEADLOCK FALSE
